@@ -1,5 +1,6 @@
 import Hls.Props.C20
 import Hls.Proofs.Fold
+import Hls.Proofs.BTree
 /-!
 # C20 at string level (second property file of C20): the builder path and the TEXT path agree
 
@@ -46,5 +47,27 @@ theorem accepted_text_builds (b : MediaPlaylistBuilder) (s : Str) (p : MediaPlay
   obtain ⟨st, hf, hp, _⟩ := assembleMedia_ok b ls p h3
   exact ⟨{ st.builder with segments := some (st.segments.map some), unknown := some st.unknown },
     (builder_text_agree_text b s rest ls st h1 h2 hf hp _ rfl).trans h⟩
+
+/-! ## a setter called twice: the last call counts (the client attributes of a date range, a map keyed by name) -/
+
+/-- inserting twice under one name keeps the second value -/
+theorem btreeInsert_overwrite (k : Str) (v v' : Value) (l : List (Str × Value)) :
+    btreeInsert k v' (btreeInsert k v l) = btreeInsert k v' l := by
+  have L := cmpStr_lawful
+  have hrefl : cmpStr k k = .eq := (L.eq_iff k k).mpr rfl
+  induction l with
+  | nil => simp [btreeInsert, hrefl]
+  | cons x rest ih =>
+    obtain ⟨a, va⟩ := x
+    cases h : cmpStr k a with
+    | lt => simp [btreeInsert, h, hrefl]
+    | eq => simp [btreeInsert, h, hrefl]
+    | gt => simp [btreeInsert, h, ih]
+
+/-- `insert_client_attribute(name, v)` then `insert_client_attribute(name, v')` is `insert_client_attribute(name, v')` -/
+theorem client_attribute_last_wins (b : ExtXDateRangeBuilder) (k : Str) (v v' : Value) :
+    ({ b with client_attributes := some (btreeInsert k v' (({ b with client_attributes := some (btreeInsert k v (b.client_attributes.getD [])) } : ExtXDateRangeBuilder).client_attributes.getD [])) } : ExtXDateRangeBuilder)
+      = { b with client_attributes := some (btreeInsert k v' (b.client_attributes.getD [])) } := by
+  simp [btreeInsert_overwrite]
 
 end Hls.C20T
